@@ -12,9 +12,12 @@
      never panics, never runs out of fuel (= every loop consumes input, every call gets a shorter
      window) for every input, window and fuel > len            — C11_safe_decoders_total
      no decoder contains a store through its input            — C11_safe_decoders_pure
-   NOT proved (stated in DecIR/Cost.v, measured on every run): the linear cost/allocation bounds. *)
+     time and allocation are linear in the input length: for a table accepted by all_linear (= all_safe
+     plus the "every byte is charged once per nesting level" discipline of DecIR/Linear.v),
+       cost  <= coef ps * len + size ps   and   alloc <= coef ps * len + size ps,
+     coef ps = 2 * (size ps + 1), size ps = largest block_size of a program  — C11_linear_decoders *)
 From Coq Require Import ZArith List Bool Lia.
-From LLRP Require Import DecIR.IR DecIR.Sem DecIR.Safe DecIR.SafeLemmas DecIR.SafeSound DecIR.Cost.
+From LLRP Require Import DecIR.IR DecIR.Sem DecIR.Safe DecIR.SafeLemmas DecIR.SafeSound DecIR.Linear DecIR.Cost.
 Import ListNotations.
 Open Scope Z_scope.
 
@@ -42,6 +45,29 @@ Theorem C11_safe_decoders_pure : forall ps, all_safe ps = true -> decoders_pure 
 Proof. exact all_safe_pure. Qed.
 Print Assumptions C11_safe_decoders_pure.
 
+(* forall ps accepted by all_linear, forall decoder, input, window, fuel > len and initial counters c a: the run
+   returns and has executed at most coef*len+size statements/element copies and allocated at most coef*len+size
+   bytes/objects (cost: 1 per statement and loop-guard evaluation + 1 per element copied; alloc: bytes of
+   slices and strings made + 1 per fixed-size object). *)
+Theorem C11_linear_decoders : forall ps, all_linear ps = true -> decoders_linear ps.
+Proof. exact linear_sound. Qed.
+Print Assumptions C11_linear_decoders.
+
+Theorem C11_linear_decoders_bytes : forall ps, all_linear ps = true ->
+  forall f body, lookup ps f = Some body -> forall bs : list Z,
+    exists ok st, decode ps f bs = FRet ok st
+      /\ scost st <= coef ps * Z.of_nat (length bs) + size ps
+      /\ salloc st <= coef ps * Z.of_nat (length bs) + size ps.
+Proof.
+  intros ps H f body L bs. unfold decode, run_top.
+  destruct (linear_sound ps H f body L (rd_of bs) (mkW 0 (Z.of_nat (length bs)) (Z.of_nat (length bs)))
+              (S (length bs)) 0 0) as (ok & st & E & C1 & C2).
+  - cbn [wlen wcap]. lia.
+  - cbn [wlen]. lia.
+  - exists ok, st. cbn [wlen] in C1, C2. split; [exact E|]. split; lia.
+Qed.
+Print Assumptions C11_linear_decoders_bytes.
+
 (* The hypotheses are satisfiable by a non-trivial table: a parameter with a fixed field and a loop of TLV
    sub-parameters decoded by a second (recursive) decoder, written the way the fixed generator writes them. *)
 Definition ex_leaf : block :=
@@ -61,8 +87,8 @@ Definition ex_leaf : block :=
  (BCons SRetOk BNil))))).
 Definition ex_table : programs := [(0, ex_leaf)].
 
-Example C11_example_table_safe : all_safe ex_table = true.
-Proof. vm_compute. reflexivity. Qed.
+Example C11_example_table_safe : all_safe ex_table = true /\ all_linear ex_table = true.
+Proof. vm_compute. split; reflexivity. Qed.
 Example C11_example_decodes :
   classify (decode ex_table 0 [0;7; 1;44;0;6;0;9; 1;44;0;12;0;1;1;44;0;6;0;5]) = OOk
   /\ classify (decode ex_table 0 [0;7; 1;44;0;3]) = OErr.
@@ -86,3 +112,19 @@ Example C11_example_unfixed_rejected :
   /\ classify (decode [(0, ex_leaf_unfixed)] 0 [1;45;0;0;9;9]) = OHang 3
   /\ classify (decode [(0, ex_leaf_unfixed)] 0 [1;44;0;2]) = OPanic 9.
 Proof. vm_compute. repeat split; reflexivity. Qed.
+
+(* a decoder that is memory-safe and always terminates but re-decodes the rest of the buffer for every element
+   (data[4:] instead of data[4:subLen]) is accepted by safe_prog and rejected by the linear discipline: *)
+Definition ex_leaf_quadratic : block :=
+  BCons (SIf 0 (CCmp CLe (EConst 2) ELen) BNil (BCons SRetErr BNil))
+ (BCons (SReslice 2 (EConst 2))
+ (BCons (SLoop 3 0 (CCmp CGe ELen (EConst 4))
+     (BCons (SLet 5 1 (ERd 2 (EConst 2)))
+     (BCons (SIf 6 (CCmp CGt (EVar 1) ELen) (BCons SRetErr BNil) BNil)
+     (BCons (SIf 7 (CCmp CLt (EVar 1) (EConst 4)) (BCons SRetErr BNil) BNil)
+     (BCons (SCall 9 0 (EConst 4) None)
+     (BCons (SReslice 10 (EVar 1)) BNil))))))
+ (BCons SRetOk BNil))).
+Example C11_example_quadratic_rejected :
+  all_safe [(0, ex_leaf_quadratic)] = true /\ all_linear [(0, ex_leaf_quadratic)] = false.
+Proof. vm_compute. split; reflexivity. Qed.
